@@ -208,7 +208,17 @@ func appendTokensForValue(val cty.Value, toks Tokens) Tokens {
 
 	case val.Type() == cty.Number:
 		bf := val.AsBigFloat()
-		srcStr := bf.Text('f', -1)
+		var srcStr string
+		if bf.IsInt() {
+			// A whole number is written with all of its digits. The shortest
+			// decimal form that identifies a low-precision big.Float (such as
+			// one made from a float64) can be a different integer, and the
+			// parser reads number literals at a much higher precision.
+			bi, _ := bf.Int(nil)
+			srcStr = bi.String()
+		} else {
+			srcStr = bf.Text('f', -1)
+		}
 		toks = append(toks, &Token{
 			Type:  hclsyntax.TokenNumberLit,
 			Bytes: []byte(srcStr),
